@@ -119,6 +119,10 @@ CORPUS = [
     ("each lambda on its own line, breaks after the opening parenthesis",
      "r = ds.Select(\n    «2090»lambda e: e.v + 2090).Select(\n    «2091»lambda e: e.v + 2091)\n",
      [(2090, "lambda", "Select", ["e"], True, True), (2091, "lambda", "Select", ["e"], True, True)]),
+    ("F40 witness: a def nested in a function whose body holds a multi-line string (continuation lines are part of the string)",
+     "def outer_2110():\n    «2110»def ms(e): return e.v + 2110 + len(\"\"\"\n    abcdefgh\n  ij\"\"\")\n    «2111»def ms2(e):\n"
+     "        return e.v + 2111 + len(\"\"\"\nabcdefgh\"\"\")\n    return ds.Select(ms).Select(ms2)\nr = outer_2110()\n",
+     [(2110, "def", "Select", ["e"], True, True), (2111, "def", "Select", ["e"], True, True)]),
     ("one-line def, two-line def",
      "«2100»def one(e): return e.v + 2100\n«2101»def two(e):\n    return e.v + 2101\nr = ds.Select(one).Select(two)\n",
      [(2100, "def", "Select", ["e"], True, True), (2101, "def", "Select", ["e"], True, True)]),
